@@ -1,7 +1,7 @@
 (* C07 - growth is demand-gated. *)
 From Coq Require Import ZArith Reals List Bool.
 From GCL Require Proofs.TablesOk.
-From GCL Require Import Base.F64 Base.F64Facts Model.Measure Model.Limits Proofs.LimitsBasic Proofs.VegasSafe Proofs.GradSafe Proofs.GradRecover Proofs.VegasRecover.
+From GCL Require Import Base.F64 Base.F64Facts Model.Measure Model.Limits Proofs.LimitsBasic Proofs.VegasSafe Proofs.GradSafe Proofs.GradRecover Proofs.VegasRecover Proofs.Grad2Safe Proofs.Grad2Recover.
 Import ListNotations.
 Open Scope Z_scope.
 
@@ -85,6 +85,26 @@ Theorem C07_vegas_recovered M r ss v v' : VInv v M -> 20 <= M ->
   v_max v - 1 <= vegas_est v'.
 Proof. exact (vegas_recovered M r ss v v'). Qed.
 Print Assumptions C07_vegas_recovered.
+
+(* Gradient2 recovery: a saturated sample whose RTT is not above the long-term average by more than a factor 1/(1 - delta), delta x Mx <= 1, raises the
+   stored estimate by at least twice the smoothing, up to the ceiling.  The long-term average does stay that close to a constant RTT (its deficit
+   contracts by 1 - f per sample and is fed by three roundings: below D x RTT with D x f >= 4u it stays below), so n healthy saturated samples at a
+   constant RTT bring the estimate to min(max, est + 2 s n): the ceiling is reached within (max - est) / (2 s) samples. *)
+Theorem C07_gradient2_recovers g Mx s delta : G2Inv g Mx -> gsample_ok s -> 1 <= s_rtt s < 2^53 ->
+  flt (of_int (s_inflight s)) (div (h_est g) two) = false -> 20 <= Mx -> (0 <= delta)%R -> (delta * IZR Mx <= 1)%R ->
+  (8 * u * IZR Mx <= R (h_s g))%R ->
+  (R (of_int (s_rtt s)) * (1 - delta) <= R (ea_value (ea_add (h_long g) (of_int (s_rtt s)))))%R ->
+  (Rmin (IZR (h_max g)) (R (h_est g) + 2 * R (h_s g)) <= R (h_est (o_st (grad2_step g s))))%R.
+Proof. exact (grad2_recovers g Mx s delta). Qed.
+Print Assumptions C07_gradient2_recovers.
+
+Theorem C07_gradient2_recovery_run Mx r D ss g : G2Inv g Mx -> 20 <= Mx -> 1 <= r < 2^53 ->
+  (0 <= D <= 1)%R -> (D * IZR Mx <= 1)%R -> (8 * u * IZR Mx <= R (h_s g))%R ->
+  g2_long_ok g r D -> Forall (g2_healthy Mx r) ss ->
+  let g' := fold_left (fun a s => o_st (grad2_step a s)) ss g in
+  (Rmin (IZR (h_max g)) (R (h_est g) + INR (length ss) * (2 * R (h_s g))) <= R (h_est g'))%R \/ ss = [].
+Proof. exact (grad2_recovery_run Mx r D ss g). Qed.
+Print Assumptions C07_gradient2_recovery_run.
 
 (* Generated-fact obligation, re-checked on every run against Gen/Tables.v (dumped from /repo's limit/functions as built now):
    the lookup tables and the queue-size / log10 functions agree with the model's closed forms on the table,
